@@ -1173,6 +1173,18 @@ def _geometries(rng, n, edges, kind):
             dvec = rng.choice([-1.0, 1.0], 3)
         elif kind == "collinear-near-axis":
             dvec = np.eye(3)[int(rng.integers(0, 3))] * rng.choice([-1.0, 1.0]) + np.array([0.6, -0.8, 0.3]) * float(rng.choice([3e-7, 1e-6, 4e-5, 1e-3]))
+        elif kind == "nearly-straight":
+            # NOT collinear: the angle at the anchor differs from straight by a small but resolvable amount (sine 1e-5 .. 2e-2)
+            dvec = rng.normal(size=3)
+            dvec /= np.linalg.norm(dvec)
+            if rng.integers(0, 3) == 0:
+                dvec = np.eye(3)[int(rng.integers(0, 3))] * rng.choice([-1.0, 1.0])
+            perp = np.cross(dvec, rng.normal(size=3))
+            perp /= np.linalg.norm(perp)
+            P[a] = np.round(P[a] * 4) / 4
+            P[n1] = P[a] + dvec * 0.5
+            P[n2] = P[a] - dvec * 0.75 + perp * 0.75 * float(rng.choice([1e-5, 1e-4, 5e-4, 3e-3, 2e-2]))
+            return P
         else:
             dvec = rng.integers(-5, 6, 3).astype(float)
             if not dvec.any():
@@ -1210,7 +1222,13 @@ def _collinear(P, a, n1, n2, tol=1e-6):
 def _near_collinear(P, a, n1, n2):
     d, e = np.array(P[n2]) - np.array(P[a]), np.array(P[n1]) - np.array(P[a])
     x = np.linalg.norm(np.cross(d, e)) / (np.linalg.norm(d) * np.linalg.norm(e))
-    return 1e-9 < x < 1e-3
+    return 1e-9 < x <= GENERIC_FROM
+
+
+# sine of the angle between the two frame directions from which an anchor counts as "not collinear" in the bounded twin: the statement
+# demands full equivariance for every anchor that is not EXACTLY collinear; float64 delivers 1e-8 nm only from about 2e-6 on
+# (measured on the unchanged code: error ~ 2.5e-14 / sine), so the band (1e-9, 2e-6] is left undemanded.
+GENERIC_FROM = 2e-6
 
 
 def numeric_rigid(n, edges, m, P, Q, s, R, t, seed=0):
@@ -1239,7 +1257,7 @@ def numeric_rigid(n, edges, m, P, Q, s, R, t, seed=0):
             a = 0
         a_, n1, n2 = _frame_atoms(n, edges, a)
         v1, v2 = o1[j] - np.array(P[a]), o2[j] - P2[a]
-        generic = n >= 3 and not _collinear(P, a, n1, n2, 1e-3)
+        generic = n >= 3 and not _collinear(P, a, n1, n2, GENERIC_FROM)
         if n >= 3 and _near_collinear(P, a, n1, n2) and not _collinear(P, a, n1, n2, 1e-9):
             continue        # neither clearly generic nor exactly collinear: the statement separates the two regimes
         if generic:
@@ -1374,8 +1392,8 @@ def task_numeric_generic(prop, tier, seed):
     rng = np.random.default_rng(777 + seed)
     N = 30 if tier == "quick" else 300
     out = []
-    kinds = {"C02": ("generic", "collinear-axis", "collinear-diagonal", "collinear-near-axis", "collinear-integer-direction", "two-atom", "one-atom"),
-             "C03": ("generic", "collinear-axis", "collinear-near-axis", "collinear-integer-direction"), "C04": ("generic", "collinear-axis")}[prop]
+    kinds = {"C02": ("generic", "nearly-straight", "collinear-axis", "collinear-diagonal", "collinear-near-axis", "collinear-integer-direction", "two-atom", "one-atom"),
+             "C03": ("generic", "nearly-straight", "collinear-axis", "collinear-near-axis", "collinear-integer-direction"), "C04": ("generic", "nearly-straight", "collinear-axis")}[prop]
     for kind in kinds:
         first, nbad, nrun = None, 0, 0
         for t_ in range(N):
